@@ -5,6 +5,7 @@ use serde_json::Value;
 use crate::runner::{DynProp, Session, Tier};
 
 pub mod c04;
+pub mod c05;
 pub mod c08;
 pub mod c09;
 pub mod c20;
@@ -27,7 +28,7 @@ pub fn no_custom(_: &mut Session, _: &Value) -> bool {
 }
 
 pub fn all() -> Vec<PropertyDef> {
-    vec![c04::def(), c08::def(), c09::def(), c20::def()]
+    vec![c04::def(), c05::def(), c08::def(), c09::def(), c20::def()]
 }
 
 pub fn find(id: &str) -> Option<PropertyDef> {
